@@ -17,6 +17,7 @@ PLACEMENTS = {
     "both": ["justfile", ".justfile"],
     "dupcase": ["justfile", "Justfile"],
     "dir": [],          # a DIRECTORY named `justfile`: not a file named justfile, the level has none
+    "devnull": ["justfile"],   # a symbolic link named `justfile` to /dev/null: an (empty) justfile like any other
 }
 DIRECTORIES = {"dir": ["justfile"]}
 
@@ -25,7 +26,9 @@ def level_choices(tier):
     names = list(PLACEMENTS)
     out = []
     for pl in names:
-        if PLACEMENTS[pl]:
+        if pl == "devnull":
+            out.append({"placement": pl, "knows": False, "fallback": False})
+        elif PLACEMENTS[pl]:
             for knows, fb in itertools.product([False, True], repeat=2):
                 out.append({"placement": pl, "knows": knows, "fallback": fb})
         else:
@@ -62,6 +65,9 @@ def build_tree(d, levels):
         paths.append(cur)
         for name in DIRECTORIES.get(lv["placement"], []):
             os.makedirs(os.path.join(cur, name), exist_ok=True)
+        if lv["placement"] == "devnull":
+            os.symlink("/dev/null", os.path.join(cur, "justfile"))
+            continue
         for name in PLACEMENTS[lv["placement"]]:
             text = 'set shell := ["%s", "-c"]\n' % C.VSH
             if lv["fallback"]:
@@ -95,7 +101,8 @@ def run_case(c):
         elif c["form"] == "dotdot" and inv > 0:
             argv = ["../r"]
             start = inv - 1
-        elif c["form"] == "override-slash":
+        elif c["form"] == "override-slash" and not any(lv["placement"] == "devnull" for lv in c["levels"]):
+            # (an empty justfile has no variable to override)
             argv = [["ov=x/y", "ov=/abs/p", "ov=../", "ov=d1/"][inv % 4], "r"]
         elif c["form"] in ("explicit", "explicit-wd"):
             # explicit --justfile pointing at some level that has a (single) candidate
@@ -224,7 +231,7 @@ def run(report):
     report.coverage.update({
         "evaluations": len(cases),
         "distinct_nontrivial": len(distinct),
-        "rule": "random sample of: directory chains of depth %d x per-level candidate placement {none, justfile, .justfile, JUSTFILE, .Justfile, .JUSTFILE%s, both names, both names in mixed case%s, a directory named justfile} x (knows recipe, set fallback) x invocation level x form {just r, just REL/r from an ancestor, just ../r, --justfile, --justfile + --working-directory, just NAME=a/b r}; distinct = distinct (case, outcome)" % (
+        "rule": "random sample of: directory chains of depth %d x per-level candidate placement {none, justfile, .justfile, JUSTFILE, .Justfile, .JUSTFILE%s, both names, both names in mixed case%s, a directory named justfile, a symbolic link named justfile to /dev/null} x (knows recipe, set fallback) x invocation level x form {just r, just REL/r from an ancestor, just ../r, --justfile, --justfile + --working-directory, just NAME=a/b r}; distinct = distinct (case, outcome)" % (
             3 if tier == "quick" else 4, "", ", two case variants of one name"),
         "samples": samples,
         "traces_validated_against_impl": len(cases),
